@@ -277,10 +277,13 @@ def run(rep):
                 rep.violation(f"{early} bytes of the first message arrive with the CEA / CER: {verdict}", {"kind": "recv", "args": [seed, 2, "random", 1], "early": early})
                 break
     # a burst that fills the transport's read buffer exactly (4 x 64 KiB)
-    verdict, info = assoc.run_recv(7, 0, "huge", 1, fine=False)
-    rep.case(("huge",))
-    if verdict:
-        rep.violation(f"a message of 325,084 bytes (more than one socket read) followed by two small ones: {verdict}", {"kind": "recv", "args": [7, 0, "huge", 1], "fine": False})
+    for hs in range(1, 9 if rep.tier == "quick" else 60):
+        # (several schedules: the receive worker may or may not look at the buffer between the two reads)
+        verdict, info = assoc.run_recv(hs, 0, "huge", 1, fine=False)
+        rep.case(("huge", hs))
+        if verdict:
+            rep.violation(f"a message of 325,084 bytes (more than one socket read) followed by two small ones: {verdict}", {"kind": "recv", "args": [hs, 0, "huge", 1], "fine": False})
+            break
     verdict, info = assoc.run_recv(5, 0, "buffer", 1, fine=False)
     rep.case(("buffer",))
     if verdict:
